@@ -30,6 +30,8 @@ Definition err_of (name : string) (args : list Z) : err :=
 Fixpoint out_of_sres (r : sres) : outcome Z :=
   match r with ROk v => Ok v | RErr n a => Err (err_of n a) | RStruct _ => Crash | RDo _ _ k => out_of_sres k end.
 
+Ltac src_simpl_hook ::= cbn [out_of_sres err_of String.eqb Ascii.eqb Bool.eqb].
+
 (* ---- Publication ---- *)
 Fixpoint run_pub (m : mode) (l : log) (r : sres) : log * outcome Z :=
   match r with
@@ -55,40 +57,31 @@ Lemma geb_leb a b : (a >=? b) = (b <=? a). Proof. apply Z.geb_leb. Qed.
 Theorem src_pub_new_position_eq m l term_count term_offset tid position resulting :
   run_pub_o m l (src_pub_new_position m (max_possible_position l) term_count term_offset tid position resulting)
   = pub_new_position m l term_count term_offset tid position resulting.
-Proof. unfold src_pub_new_position, pub_new_position. rewrite gtb_ltb.
-  destruct (0 <? resulting).
-  - unfold sub64, add64.
-    case_chk64 m (position - term_offset) a E1.
-    case_chk64 m (a + resulting) np E2.
-    pose proof (chk64_range _ _ _ E2) as R. rewrite geb_leb.
-    destruct (0 <=? np) eqn:P; cbn [run_pub_o run_pub out_of_sres]; [|reflexivity].
-    rewrite castT_id by (unfold inT, in_i64, two63 in *; cbn [loT hiT signedT bitsT]; change (2 ^ 64) with 18446744073709551616; lia).
-    reflexivity.
-  - unfold add64. case_chk64 m (position + term_offset) v E1.
-    rewrite gtb_ltb. destruct (max_possible_position l <? v); cbn [run_pub_o run_pub out_of_sres]; [reflexivity|].
-    unfold do_. cbn [run_pub_o run_pub String.eqb Ascii.eqb Bool.eqb].
-    destruct (rotate_log m (meta_of l) term_count tid); reflexivity. Qed.
+Proof. unfold src_pub_new_position, pub_new_position. generalize (max_possible_position l); intros mpp.
+  cbv zeta. srcT_unfold_ops. cbn [bind]. cmp_norm. repeat unify_chk.
+  repeat (split_chk1; cmp_norm; repeat unify_chk); if_split;
+    cbn [bind do_ run_pub_o run_pub out_of_sres String.eqb Ascii.eqb Bool.eqb] in *;
+    try solve [src_leaf]; try (destruct (rotate_log m (meta_of l) term_count tid); reflexivity). Qed.
 
 Theorem src_pub_back_pressure_status_eq m l position len :
   (r <- src_pub_back_pressure_status m (max_possible_position l) (l_connected l) position len ;; out_of_sres r)
   = back_pressure_status m l position len.
-Proof. unfold src_pub_back_pressure_status, back_pressure_status, add64.
-  case_chk64 m (position + len) v E.
-  rewrite geb_leb. destruct (max_possible_position l <=? v); [reflexivity|]. destruct (l_connected l); reflexivity. Qed.
+Proof. unfold src_pub_back_pressure_status, back_pressure_status. generalize (max_possible_position l); intros mpp.
+  destruct (l_connected l); src_robust. Qed.
 
 (* the two length checks: refused exactly when the model answers TooLong *)
 Lemma src_pub_check_max_message_length_eq m maxl len :
   (r <- src_pub_check_max_message_length m maxl len ;; out_of_sres r) = if maxl <? len then Err TooLong else Ok 0.
-Proof. unfold src_pub_check_max_message_length. rewrite gtb_ltb. destruct (maxl <? len); reflexivity. Qed.
+Proof. unfold src_pub_check_max_message_length. src_robust. Qed.
 Lemma src_pub_check_payload_length_eq m maxl len :
   (r <- src_pub_check_payload_length m maxl len ;; out_of_sres r) = if maxl <? len then Err TooLong else Ok 0.
-Proof. unfold src_pub_check_payload_length. rewrite gtb_ltb. destruct (maxl <? len); reflexivity. Qed.
+Proof. unfold src_pub_check_payload_length. src_robust. Qed.
 
 (* ---- geometry computed by Publication::new / ExclusivePublication::new ---- *)
 Lemma src_pub_max_possible_position_eq m l : src_pub_max_possible_position m (l_tlen l) = Ok (max_possible_position l).
 Proof. unfold src_pub_max_possible_position, max_possible_position. srcT_norm. reflexivity. Qed.
 Lemma src_pub_max_payload_length_eq m l : src_pub_max_payload_length m (l_mtu l) = sub32 m (l_mtu l) HDR.
-Proof. reflexivity. Qed.
+Proof. unfold src_pub_max_payload_length, HDR, GenConsts.DFH_LENGTH. src_robust. Qed.
 Lemma src_pub_max_payload_length_ok m l : in_i32 (l_mtu l - HDR) = true ->
   src_pub_max_payload_length m (l_mtu l) = Ok (max_payload_length l).
 Proof. intros H. rewrite src_pub_max_payload_length_eq. unfold sub32, max_payload_length. apply chk32_ok. assumption. Qed.
@@ -128,12 +121,12 @@ Proof. unfold src_pub_offer_term_offset. srcT_norm. reflexivity. Qed.
 Lemma src_pub_offer_position_eq m l tid term_offset : 0 <= bits_of l < 64 ->
   src_pub_offer_position m (bits_of l) (l_init l) tid term_offset =
   add64 m (compute_term_begin_position tid (bits_of l) (l_init l)) term_offset.
-Proof. intros H. unfold src_pub_offer_position. rewrite src_compute_term_begin_position_eq by assumption. reflexivity. Qed.
+Proof. intros H. unfold src_pub_offer_position. rewrite src_compute_term_begin_position_eq by assumption. src_robust. Qed.
 
 Lemma src_pub_claim_position_eq m l tid term_offset : 0 <= bits_of l < 64 ->
   src_pub_claim_position m (bits_of l) (l_init l) tid term_offset =
   add64 m (compute_term_begin_position tid (bits_of l) (l_init l)) term_offset.
-Proof. intros H. unfold src_pub_claim_position. rewrite src_compute_term_begin_position_eq by assumption. reflexivity. Qed.
+Proof. intros H. unfold src_pub_claim_position. rewrite src_compute_term_begin_position_eq by assumption. src_robust. Qed.
 
 Lemma src_pub_offer_decisions_eq m l term_count tid position limit len toff :
   src_pub_offer_term_mismatch m (l_init l) term_count tid = Ok (negb (term_count =? wrap32 (tid - l_init l))) /\
@@ -142,7 +135,10 @@ Lemma src_pub_offer_decisions_eq m l term_count tid position limit len toff :
   src_pub_claim_below_limit m position limit = Ok (position <? limit) /\
   src_pub_offer_unfragmented m (max_payload_length l) len = Ok (len <=? max_payload_length l) /\
   src_pub_offer_term_offset_arg m toff = Ok (wrap32 toff).
-Proof. repeat split. Qed.
+Proof. unfold src_pub_offer_term_mismatch, src_pub_claim_term_mismatch, src_pub_offer_below_limit, src_pub_claim_below_limit,
+    src_pub_offer_unfragmented, src_pub_offer_term_offset_arg.
+  generalize (max_payload_length l); intros mpl. generalize (l_init l); intros init.
+  split; [|split; [|split; [|split; [|split]]]]; first [ reflexivity | solve [src_robust] | f_equal; f_equal; apply Z.eqb_sym ]. Qed.
 
 (* ---- ExclusivePublication ---- *)
 Definition x_set_off (x : xpub) v := mkX (x_pub x) v (x_tid x) (x_idx x) (x_begin x).
@@ -169,6 +165,8 @@ Fixpoint run_xpub (x : xpub) (r : sres) : xpub * outcome Z :=
   | other => (x, out_of_sres other)
   end.
 
+Ltac src_simpl_hook ::= cbn [out_of_sres run_pub_o run_pub run_xpub err_of String.eqb Ascii.eqb Bool.eqb].
+
 (* the publication as new_position finds it: the log as the appender left it, the claim the appender handed out *)
 Definition x_entry (x : xpub) (l : log) (claim : option (Z * Z * Z)) : xpub :=
   mkX (mkPub l (ps_closed (x_pub x)) (match claim with Some c => Some c | None => ps_claim (x_pub x) end))
@@ -192,17 +190,16 @@ Proof. cbv zeta. unfold src_xpub_new_position, xpub_new_position. rewrite gtb_lt
 Theorem src_xpub_back_pressure_status_eq m l position len :
   (r <- src_xpub_back_pressure_status m (max_possible_position l) (l_connected l) position len ;; out_of_sres r)
   = back_pressure_status m l position len.
-Proof. unfold src_xpub_back_pressure_status, back_pressure_status, add64.
-  case_chk64 m (position + len) v E.
-  rewrite geb_leb. destruct (max_possible_position l <=? v); [reflexivity|]. destruct (l_connected l); reflexivity. Qed.
+Proof. unfold src_xpub_back_pressure_status, back_pressure_status. generalize (max_possible_position l); intros mpp.
+  destruct (l_connected l); src_robust. Qed.
 
 Lemma src_xpub_checks_eq m maxl len :
   (r <- src_xpub_check_max_message_length m maxl len ;; out_of_sres r) = (if maxl <? len then Err TooLong else Ok 0) /\
   (r <- src_xpub_check_payload_length m maxl len ;; out_of_sres r) = (if maxl <? len then Err TooLong else Ok 0) /\
   src_xpub_offer_too_long m maxl len = Ok (maxl <? len) /\
   src_xpub_offer_unfragmented m maxl len = Ok (len <=? maxl).
-Proof. unfold src_xpub_check_max_message_length, src_xpub_check_payload_length, src_xpub_offer_too_long.
-  rewrite !gtb_ltb. destruct (maxl <? len); repeat split. Qed.
+Proof. unfold src_xpub_check_max_message_length, src_xpub_check_payload_length, src_xpub_offer_too_long, src_xpub_offer_unfragmented.
+  split; [|split; [|split]]; src_robust. Qed.
 
 Lemma src_xpub_geometry_eq m l : in_i32 (l_tlen l) = true ->
   src_xpub_max_possible_position m (l_tlen l) = Ok (max_possible_position l) /\
@@ -210,13 +207,13 @@ Lemma src_xpub_geometry_eq m l : in_i32 (l_tlen l) = true ->
   src_xpub_position_bits_to_shift m (l_tlen l) = Ok (bits_of l).
 Proof. intros H. split; [|split].
   - unfold src_xpub_max_possible_position, max_possible_position. srcT_norm. reflexivity.
-  - reflexivity.
+  - unfold src_xpub_max_payload_length, HDR, GenConsts.DFH_LENGTH. src_robust.
   - unfold src_xpub_position_bits_to_shift, bits_of. apply src_number_of_trailing_zeroes_eq; assumption. Qed.
 
 Lemma src_xpub_position_eq m x :
   src_xpub_offer_position m (x_begin x) (x_off x) = add64 m (x_begin x) (x_off x) /\
   src_xpub_position m (x_begin x) (x_off x) = add64 m (x_begin x) (x_off x).
-Proof. split; reflexivity. Qed.
+Proof. unfold src_xpub_offer_position, src_xpub_position. split; src_robust. Qed.
 
 (* ---- TermAppender lengths ---- *)
 Lemma src_align_FA m v : src_align m v GenConsts.FRAME_ALIGNMENT = align32 m v.
@@ -224,8 +221,11 @@ Proof. apply src_align_frame. Qed.
 
 Lemma src_ta_unfrag_lengths_eq m len :
   (fl <- src_ta_frame_length m len ;; al <- src_ta_aligned_length m fl ;; Ok (fl, al)) = unfrag_lengths m len.
-Proof. unfold src_ta_frame_length, src_ta_aligned_length, unfrag_lengths. apply bind_ext; intros fl _.
-  rewrite src_align_FA. reflexivity. Qed.
+Proof. unfold src_ta_frame_length, src_ta_aligned_length, unfrag_lengths.
+  replace (add32 m len GenConsts.DFH_LENGTH) with (add32 m len HDR) by reflexivity.
+  first [ apply bind_ext; intros fl _; rewrite src_align_FA; reflexivity
+        | (replace (add32 m GenConsts.DFH_LENGTH len) with (add32 m len HDR) by (unfold add32; f_equal; unfold HDR; lia));
+          apply bind_ext; intros fl _; rewrite src_align_FA; reflexivity ]. Qed.
 
 Lemma src_ta_last_frame_length_eq m rp :
   src_ta_last_frame_length m rp = (if 0 <? rp then (s <- add32 m rp HDR ;; align32 m s) else Ok 0).
@@ -246,8 +246,8 @@ Lemma src_ta_tail_eq m raw al tl :
   src_ta_term_offset m raw = Ok (raw mod two32) /\
   src_ta_resulting_offset m (raw mod two32) al = add64 m (raw mod two32) al /\
   src_ta_trips m al tl = Ok (al >? tl).
-Proof. unfold src_ta_term_offset. srcT_norm. repeat split. Qed.
+Proof. unfold src_ta_term_offset, src_ta_resulting_offset, src_ta_trips. srcT_norm. split; [reflexivity|split]; src_robust. Qed.
 
 Lemma src_ta_padding_eq m off tl :
   src_ta_pads m off tl = Ok (off <? tl) /\ src_ta_padding_length m tl off = sub32 m tl off.
-Proof. split; reflexivity. Qed.
+Proof. unfold src_ta_pads, src_ta_padding_length. split; src_robust. Qed.
